@@ -564,13 +564,14 @@ func main() {
 }
 
 func generate(w *run.W) {
-	nb := w.Pick(640, 6400)
+	nb := w.Pick(1500, 12000)
 	for b := 0; b < nb; b++ {
 		if !w.Mine(b) {
 			continue
 		}
 		r := w.Rand("chain", b)
 		tc := &gen.TypeCfg{MaxDepth: 2 + r.IntN(3), Named: namedLeaves, NamedPct: 8, Fallback: true,
+			Leaves:  []string{"int", "string", "bool", "any", "float64", "any", "any", "map[string]any"},
 			MapKeys: []string{"string", "string", "string", "int", "SKey", "uint8"}}
 		for i := 0; i < 100; i++ {
 			a := &chainArgs{Type: gen.RandType(r, tc, 0), Route: [...]string{"unmarshal", "unmarshal", "read", "stream"}[r.IntN(4)], AnyLen: r.IntN(4) == 0}
